@@ -23,7 +23,8 @@ OUTCOMES_NOT_RUN = {"SKIP", "SKIP_UNCHANGED", "SKIP_PREVIOUS_FAILED", "PERSISTEN
 # ------------------------------------------------------------------------------------------------
 
 def gen_spec(rng, *, nt=(2, 6), marks=(), behs=("ok",), after_p=0.3, nomods=(1, 3), prodless_p=0.15,
-             multi_prod_p=0.25, dens=0.5, user_markers=False, styles=("default", "annotated", "kwargs", "return")):
+             multi_prod_p=0.25, dens=0.5, user_markers=False, styles=("default", "annotated", "kwargs", "return"),
+             after_needs_prods=False):
     n = rng.randint(*nt)
     nmods = rng.randint(*nomods)
     tasks = []
@@ -47,8 +48,9 @@ def gen_spec(rng, *, nt=(2, 6), marks=(), behs=("ok",), after_p=0.3, nomods=(1, 
                 prods.append(next_node)
                 next_node += 1
         after = []
-        if tid > 0 and rng.random() < after_p:
-            after = rng.sample(range(tid), rng.randint(1, min(2, tid)))
+        cands = [u["id"] for u in tasks if u["prods"] or not after_needs_prods]
+        if cands and rng.random() < after_p:
+            after = rng.sample(cands, rng.randint(1, min(2, len(cands))))
         t = {"id": tid, "module": rng.randrange(nmods), "deps": sorted(set(deps)), "prods": prods, "after": sorted(after),
              "after_style": rng.choice(["func", "list", "expr"]), "marks": [], "beh": "ok", "style": rng.choice(styles)}
         for mk, p in marks:
@@ -57,7 +59,7 @@ def gen_spec(rng, *, nt=(2, 6), marks=(), behs=("ok",), after_p=0.3, nomods=(1, 
         if "try_first" in t["marks"] and "try_last" in t["marks"]:
             t["marks"].remove("try_last")
         if user_markers:
-            for mk in ("m1", "m2"):
+            for mk in ("markone", "marktwo"):
                 if rng.random() < 0.3:
                     t["marks"].append(mk)
         b = rng.choice(behs)
@@ -135,8 +137,7 @@ def scratch_contents(spec, inputs):
             if any(d is None for d in ds) or t.get("beh", "ok") != "ok":
                 v = None
             else:
-                ver = spec["versions"].get(str(t["module"]), 0)
-                v = project.F(t["id"], i, project.src_content(t["module"], ver), ds)
+                v = project.F(t["id"], i, project.module_content(spec, t["module"]), ds)
         else:
             v = inputs.get(n)
         memo[n] = v
@@ -210,7 +211,7 @@ def run_history(server, hist, ctx=None, keep=False):
                 project.rewrite_modules(root, spec, clock)
             elif kind == "respec":     # ("respec", newspec) structural edit: add/remove/rewire tasks
                 newspec = copy.deepcopy(step[1])
-                newspec["versions"] = spec["versions"] | newspec.get("versions", {})
+                newspec["versions"] = newspec.get("versions", {}) | spec["versions"]   # current versions win
                 spec = newspec
                 project.rewrite_modules(root, spec, clock)
                 for n, c in spec.get("inputs", {}).items():
@@ -358,3 +359,68 @@ def run_campaign(ctx, histories, oracle, kinds=None, sel_eval=None, nseeds=None,
                 ctx.disagreement(f"engine model, step {i} ({h['steps'][i][0]}): {what}: implementation {iv!r}, model {mv!r}",
                                  {"history": h, "step": i, "what": what, "impl": iv, "model": mv, "layer": "engine-e2e"})
     return all_records
+
+
+# ------------------------------------------------------------------------------------------------
+# selection semantics from the spec (independent of pytask)
+# ------------------------------------------------------------------------------------------------
+
+def task_keywords(t):
+    """names KeywordMatcher sees, restricted to what the generated expressions use: the task's function name, its module
+    file name, and its (user) marker names."""
+    from impl import project as _p
+    names = {_p.tname(t["id"]), f"task_m{t['module']}.py::" + _p.tname(t["id"])}
+    for mk in t.get("marks", []):
+        names.add("skipif" if mk.startswith("skipif") else mk)
+    return names
+
+
+def task_marknames(t):
+    return {("skipif" if mk.startswith("skipif") else mk) for mk in t.get("marks", [])}
+
+
+def sel_eval(kind, expr, spec):
+    from impl import selexpr
+    out = []
+    for t in spec["tasks"]:
+        if kind == "k":
+            names = [n.lower() for n in task_keywords(t)]
+            ok = selexpr.evaluate(expr, lambda ident: any(ident.lower() in n for n in names))
+        else:
+            names = task_marknames(t)
+            ok = selexpr.evaluate(expr, lambda ident: ident in names)
+        if ok:
+            out.append(t["id"])
+    return out
+
+
+def eligible(spec, cfg):
+    """selected tasks plus everything they depend on transitively (product chains and after declarations)."""
+    edges = spec_task_edges(spec)
+    allt = {t["id"] for t in spec["tasks"]}
+    el = set(allt)
+    for kind in ("k", "m"):
+        if cfg.get(kind):
+            sel = set(sel_eval(kind, cfg[kind], spec))
+            cl = set(sel)
+            for t in sel:
+                cl |= closure(edges, t, forward=False)
+            el &= cl
+    return el
+
+
+def user_skipped_closure(spec):
+    edges = spec_task_edges(spec)
+    s = {t["id"] for t in spec["tasks"] if "skip" in t.get("marks", []) or "skipif_true" in t.get("marks", [])}
+    out = set(s)
+    for t in s:
+        out |= closure(edges, t, forward=True)
+    return out
+
+
+def executed(obs):
+    return [int(e[1]) for e in obs["log"] if e[0] == "S"]
+
+
+def outcomes(obs):
+    return {name_to_id(r[0]): r[1] for r in obs.get("reports", [])}
